@@ -175,6 +175,17 @@ CHECKS = {
    note=TRUST + 'Bounds: n < min(2^20, 2^51 / multiplier) so that every product is an exact double (larger literals, where rounding occurs, are outside); fractions 1/2, 1/4, '
         '1/16 only. Outside: humansize itself (monotonicity and round-trip of the rendered text), the regex crate (captures modelled), Field::FormattedSize wiring.',
    technique=TECH),
+ 'C16': dict(
+   level='model_checking', design_ref='DESIGN.md §5 C16',
+   text='Real MIR of function::get_value, z3: (wiring) with library string / float routines uninterpreted (terms over an abstract text sort, concatenation canonicalised) '
+        'every arm is decided equal to its documented term: LOWER/UPPER/TRIM/LTRIM/RTRIM/REPLACE/CONCAT/CONCAT_WS/LENGTH (characters)/COALESCE (first non-empty)/ABS/SQRT/LN/EXP/'
+        'POWER/LOG/LEAST/GREATEST; (substr) SUBSTR on concrete ASCII and multi-byte subjects with symbolic position and length over all i32 / usize values: 1-based, negative '
+        'from the end, optional length, in characters, no panic; (args) non-numeric, empty, fractional and huge arguments never reach a panic in SUBSTR, POWER, LOG, '
+        'FORMAT_TIME, BIN, ABS, LEAST, FORMAT_SIZE.',
+   note=TRUST + 'The library routines themselves (to_lowercase, trim, replace, powf, ln, base64, human_time, wana_kana) are uninterpreted: the claim is which routine is applied to '
+        'which argument in which order. Outside: BIN / HEX / OCT rendering (radix format directives), INITCAP, TO/FROM_BASE64, FORMAT_TIME rendering, YEAR/MONTH/DAY/DOW, '
+        'composition through get_function_value (argument evaluation order), SUBSTR position 0 and positions beyond the string (not specified by the statement).',
+   technique=TECH),
 }
 REASON_TODO = 'check not built yet in this session (planned: see DESIGN.md §5); not claimed until it exists'
 NA = {}
